@@ -1286,6 +1286,94 @@ def check_cache_and_lazy(repo, chk):
         chk.info("LazyCall.__iter__ no longer reads self.batch_size; rule M2 may be obsolete")
 
 
+_MUT_DISPLAY = (ast.Dict, ast.List, ast.Set)
+
+
+def _shared_element_lists(fnode):
+    """names bound to `[<fresh mutable>] * n` (one object referenced n times) -> the binding statement"""
+    out = {}
+    for st in ast.walk(fnode):
+        if isinstance(st, ast.Assign) and len(st.targets) == 1 and isinstance(st.targets[0], ast.Name) and isinstance(st.value, ast.BinOp) and isinstance(st.value.op, ast.Mult):
+            for side in (st.value.left, st.value.right):
+                if isinstance(side, ast.List) and len(side.elts) == 1:
+                    e = side.elts[0]
+                    if isinstance(e, _MUT_DISPLAY) or (isinstance(e, ast.Call) and isinstance(e.func, ast.Name) and e.func.id in ("dict", "list", "set") and not e.args):
+                        out[st.targets[0].id] = st
+    return out
+
+
+def _element_mutations(fnode, name):
+    """statements that mutate an element of the list `name` in place: name[i][k] = v, name[i].append(..), name[i] += .."""
+    hits = []
+    for st in ast.walk(fnode):
+        tgt = None
+        if isinstance(st, (ast.Assign, ast.AugAssign)):
+            for t in (st.targets if isinstance(st, ast.Assign) else [st.target]):
+                if isinstance(t, ast.Subscript) and isinstance(t.value, ast.Subscript) and isinstance(t.value.value, ast.Name) and t.value.value.id == name:
+                    tgt = st
+        if isinstance(st, ast.Call) and isinstance(st.func, ast.Attribute) and st.func.attr in ("append", "extend", "update", "add", "setdefault", "insert", "pop", "remove", "clear") \
+                and isinstance(st.func.value, ast.Subscript) and isinstance(st.func.value.value, ast.Name) and st.func.value.value.id == name:
+            tgt = st
+        if tgt is not None:
+            hits.append(tgt)
+    return hits
+
+
+def check_batch_keys_and_aliases(repo, chk):
+    """round-3 seeds: (M3) an on-disk cache of batched lazy data is keyed by the batch size; (L5) per-group containers
+    that are filled element by element are distinct objects"""
+    chk.rule("M3", "LazyCall.as_dataset: the file name handed to Dataset.cache(..) depends on the requested batch size (a cache written with one batch size must not be replayed for another: the extra leaves are split with the new size)")
+    chk.rule("L5", "no list built as [<fresh dict/list/set>] * n is filled element-wise afterwards (all n entries are one object: every group would get the last group's values)")
+    fn = repo.fn("tf_pwa/data.py::LazyCall.as_dataset")
+    batch = fn.params[1] if len(fn.params) > 1 else None
+    defs = {}
+    for st in walk_local(fn.node):
+        if isinstance(st, ast.Assign):
+            for t in st.targets:
+                if isinstance(t, ast.Name):
+                    defs.setdefault(t.id, set()).update(x.id for x in ast.walk(st.value) if isinstance(x, ast.Name))
+        elif isinstance(st, ast.AugAssign) and isinstance(st.target, ast.Name):
+            defs.setdefault(st.target.id, set()).update(x.id for x in ast.walk(st.value) if isinstance(x, ast.Name))
+
+    def depends(names, seen=None):
+        seen = seen or set()
+        for nm in names:
+            if nm == batch:
+                return True
+            if nm in seen:
+                continue
+            seen.add(nm)
+            if depends(defs.get(nm, ()), seen):
+                return True
+        return False
+
+    sites = [c for c in walk_local(fn.node) if isinstance(c, ast.Call) and isinstance(c.func, ast.Attribute) and c.func.attr == "cache" and c.args]
+    if not sites:
+        raise AnalysisError("LazyCall.as_dataset: no Dataset.cache(<file>) call found")
+    for c in sites:
+        ok = depends({x.id for x in ast.walk(c.args[0]) if isinstance(x, ast.Name)})
+        chk.instance("M3", "LazyCall.as_dataset: cache file `%s` depends on the batch size `%s`: %s" % (norm_text(c.args[0]), batch, ok))
+        if not ok:
+            chk.violation("M3", fn.key, "cache-key", "the on-disk cache `%s` does not depend on the batch size: a second as_dataset() with another batch size replays the batches of the first one while the other leaves are split with the new size (events silently lost)" % norm_text(c.args[0]), file="tf_pwa/data.py", line=c.lineno)
+    # L5 over every non-test module
+    n_lists = 0
+    for mod in repo.mods.values():
+        for f in mod.funcs.values():
+            shared = _shared_element_lists(f.node)
+            for name, st in shared.items():
+                n_lists += 1
+                muts = _element_mutations(f.node, name)
+                chk.instance("L5", "%s: `%s` shares one object; element-wise mutations: %d" % (f.key, norm_text(st)[:60], len(muts)), nontrivial=bool(muts))
+                if muts:
+                    chk.violation("L5", f.key, "shared:%s" % name, "`%s` puts ONE object into every slot, and `%s` (line %d) then fills the slots one by one: every group ends up with the values of the last one" % (norm_text(st)[:70], norm_text(muts[0])[:60], muts[0].lineno), file=mod.rel, line=st.lineno)
+    # positive example (the rule normally matches nothing)
+    t = ast.parse("def f(files, w):\n    kw = [{}] * len(files)\n    for i in range(len(kw)):\n        kw[i]['w'] = w[i]\n    ok = [{} for _ in files]\n    ok[0]['w'] = 1\n    return kw")
+    sh = _shared_element_lists(t.body[0])
+    if list(sh) != ["kw"] or len(_element_mutations(t.body[0], "kw")) != 1:
+        raise AnalysisError("L5 fixture no longer classified as expected")
+    chk.instance("L5", "fixture: [{}] * n filled by index is flagged, a comprehension of fresh dicts is not (%d shared-element lists in the repository)" % n_lists, nontrivial=False)
+
+
 def run(repo, chk, tier):
     chk.rule("K1", "each structural recursion dispatches on exactly its confirmed container kinds (frozen table)")
     chk.rule("K2", "partner functions handle the same kinds; flatten/nest agree on leaf kinds and dict order")
@@ -1304,6 +1392,7 @@ def run(repo, chk, tier):
     check_recursions(repo, chk)
     check_layout(repo, chk)
     check_cache_and_lazy(repo, chk)
+    check_batch_keys_and_aliases(repo, chk)
     from .c18_copy import check_copy_isolation
 
     check_copy_isolation(repo, chk)
